@@ -138,6 +138,27 @@ def gen_cases(rng, tier):
         yield C.as_factory(corr_case(r_irt, [sc], uns, outs, encrypted=True))
     for _ in range(100 if tier == "quick" else 2000):
         yield C.as_factory(random_mix(rng))
+    # the correlation product for a Response element WITHOUT its optional Issuer child
+    for r_irt, sc, uns, outs in itertools.product(IRT, IRT, (False, True), OUTSTANDING):
+        c = corr_case(r_irt, [sc], uns, outs, "post")
+        c["resp"]["issuer"] = None
+        c["tag"] += "/no-issuer"
+        yield c
+    for r_irt, sc1, sc2 in itertools.product(IRT, IRT, IRT):
+        c = corr_case(r_irt, [sc1, sc2], False, "many")
+        c["resp"]["issuer"] = None
+        c["tag"] += "/no-issuer"
+        yield c
+    # top-level status codes that LOOK like Success (fragments, extensions, case variants) with and without an assertion
+    for top in (SUCCESS[:-1], SUCCESS[: SUCCESS.rfind(":")], SUCCESS[: SUCCESS.rfind(":") + 5], "Success", "status:Success",
+                "urn:oasis:names:tc:SAML:2.0", SUCCESS + "x", SUCCESS + " ", " " + SUCCESS, SUCCESS.upper(), SUCCESS.lower(),
+                SUCCESS.replace("2.0", "1.0"), "success"):   # (an empty Value is refused earlier, as an invalid instance)
+        for sec in (None, "urn:oasis:names:tc:SAML:2.0:status:AuthnFailed"):
+            c = C.base_case(PROP)
+            c["resp"]["status_top"] = top
+            c["resp"]["status_second"] = sec
+            c["tag"] = "status-lookalike:%r/%s" % (top[-14:], sec and "AuthnFailed")
+            yield c
     # the forms the allow_unsolicited option may take in a configuration, and what each means
     for raw, means in (("", False), (None, False), ("false", False), (False, False), (0, False),
                        ("true", True), (True, True), ("True", True), (1, True)):
